@@ -133,8 +133,9 @@ func (c *allOfConstraintCompiler) extendWith(node schema.Node, name string) {
 	}
 
 	if requiredKeys := fromObject.Constraint(constraint.RequiredKeysConstraintType); requiredKeys != nil {
-		for _, key := range requiredKeys.(*constraint.RequiredKeys).Keys() {
-			addRequiredKey(toObject, key)
+		requiredKeys := requiredKeys.(*constraint.RequiredKeys) //nolint:errcheck // We're sure about this type.
+		for i, key := range requiredKeys.Keys() {
+			addRequiredKey(toObject, key, requiredKeys.IsShortcut(i))
 		}
 	}
 }
